@@ -132,6 +132,12 @@ class ObserverList(Observer):
         super().updateStats(file, stats)
 
     def serializeDetails(self):
+        def entity_name(key):
+            # PO keys are tuples of msgid and msgctxt
+            if isinstance(key, tuple):
+                return " | ".join(part for part in key if part is not None)
+            return key
+
         def tostr(t):
             if t[1] == "key":
                 return "  " * t[0] + "/".join(t[2])
@@ -143,9 +149,9 @@ class ObserverList(Observer):
                 elif "warning" in item:
                     o += [indent + "WARNING: " + item["warning"]]
                 elif "missingEntity" in item:
-                    o += [indent + "+" + item["missingEntity"]]
+                    o += [indent + "+" + entity_name(item["missingEntity"])]
                 elif "obsoleteEntity" in item:
-                    o += [indent + "-" + item["obsoleteEntity"]]
+                    o += [indent + "-" + entity_name(item["obsoleteEntity"])]
                 elif "missingFile" in item:
                     o.append(indent + "// add and localize this file")
                 elif "obsoleteFile" in item:
